@@ -2,6 +2,7 @@ import McpModel.Base.Proto
 import McpModel.OAuth.Monitor
 import McpModel.OAuth.Challenge
 import McpModel.OAuth.NewHandler
+import McpModel.OAuth.Scopes
 /-!
 Driver for E11 (C15).
 
@@ -19,6 +20,10 @@ Flow records:   `auth st=… cimd=… pre=… dcr=… u=<url> hm=… ch=… hdr=
                 finished) or `f`/`e` (forged / empty).
                 `nts=1` on `auth`: `NewTokenSource` is configured (its source wraps the default one); `nt=E` on a round: it
                 returns an error in that round.
+                Scopes: `sf=<n|d|r|x>` / `rr=<0|1>` on `auth` (ScopeFilter variant, RequestRefreshToken), `ps=` / `as=` (the
+                `scopes_supported` of the round's protected-resource / authorization-server documents), `ts=` (`scope`
+                of the token response, `-` = absent); the observation ends with `sc=<sorted scope set of the authorization
+                URL>` when the fetcher was reached.
                 Observation `out=<outcome> inst=<0|1> cur=<i|k> log=<events>` (`Authorize` returning nil is `ok` both
                 for a completed flow and for the 403-without-insufficient_scope skip; `inst` = TokenSource()
                 changed in this round; `cur` = the round that installed the source now served, `i` = the
@@ -158,6 +163,11 @@ def parseChallenge (t : String) : Option (Challenge × String) :=
 /-- A parsed flow record: the typed round the monitor reads (`m`), and the string-level extras. -/
 structure Case where
   m : MCase
+  ps : List Scope := []                -- `scopes_supported` of the protected-resource documents of the round
+  asS : List Scope := []               -- `scopes_supported` of the authorization-server documents of the round
+  ts : Option (List Scope) := none     -- `scope` member of the token response (`none` = absent)
+  sc : Option (List Scope) := none     -- set at `start`: the scopes of the authorization request (canonical), if the fetcher is reached
+  key : Url := .empty                  -- the issuer string `grantedScopes` is keyed by in this attempt
   fv : FetchV                          -- the fetcher's answer with the state VALUE (`m.tabs.fetch = fv.answer own`)
   hdr : Option (List String)           -- rendered header values (hex), for the parser cross-check
   chHex : List String
@@ -195,11 +205,15 @@ def parseCase (over : Option (HConfig × Bool)) (own : Nat) (toks : List String)
   let tokTab ← parseMap (fun s => (s.splitOn ",").mapM parseTokResp) (← get "tok")
   let f ← parseFetch own (← get "f")
   let hdr : Option (List String) := (get "hdr").map fun h => if h == "." then [] else h.splitOn ","
+  let scopeList := fun (t : String) => if t == "." then [] else t.splitOn ","
+  let ps : List Scope := match get "ps" with | some t => scopeList t | none => ["mcp:read"]
+  let asS : List Scope := match get "as" with | some t => scopeList t | none => []
+  let ts : Option (List Scope) := match get "ts" with | some "-" => none | some t => some (scopeList t) | none => none
   some { m := { cfg := hc.at u,
                 inp := { status403 := st == "403", headerMalformed := hm == "1", challenges := chs.map (·.1) },
                 tabs := { prm := prmTab, asm := asmTab, tok := tokTab, reg := regTab, fetch := f.answer own,
                           ntsFails := nts && get "nt" == some "E" } },
-         fv := f, hdr := hdr, chHex := chs.map (·.2) }
+         ps := ps, asS := asS, ts := ts, fv := f, hdr := hdr, chHex := chs.map (·.2) }
 
 /-! ### Observations -/
 
@@ -367,12 +381,55 @@ def newStep (toks : List String) (impl : String) : Verdict :=
           some "C15: handler_configuration: NewAuthorizationCodeHandler created a handler from an unusable configuration (no registration mode / no fetcher / client-id document URL not non-root https / invalid pre-registered credentials / redirect URL outside the registered ones / contradicting application type)"
         else none }
 
+/-! ### Scopes (Scopes.lean): the `sc=` field of the observation -/
+
+def insertScope (x : Scope) : List Scope → List Scope
+  | [] => [x]
+  | y :: t => if x < y then x :: y :: t else if x == y then y :: t else y :: insertScope x t
+
+/-- Sorted, without duplicates: how both sides print a scope SET. -/
+def canonScopes (l : List Scope) : List Scope := l.foldl (fun acc x => insertScope x acc) []
+
+def showScopes (l : List Scope) : String := if l.isEmpty then "." else ",".intercalate l
+
+/-- `strings.Fields` on the alphabet the generator uses (blank, tab). -/
+def fieldsAux : List Char → List Char → List String → List String
+  | [], cur, acc => (if cur.isEmpty then acc else String.ofList cur.reverse :: acc).reverse
+  | c :: t, cur, acc =>
+    if c == ' ' || c == '\t' then fieldsAux t [] (if cur.isEmpty then acc else String.ofList cur.reverse :: acc)
+    else fieldsAux t (c :: cur) acc
+
+/-- `scopesFromChallenges` on the rendered header: first Bearer challenge with a non-empty `scope`. -/
+def challengeScopes (c : Case) : List Scope :=
+  match c.hdr with
+  | none => []
+  | some hexes =>
+    match hexes.mapM hexToString with
+    | none => []
+    | some hs =>
+      match Challenge.parseHeaders (hs.map String.toList) with
+      | none => []
+      | some ps =>
+        match ps.find? (fun p => String.ofList p.scheme == "bearer" && !(p.get "scope").isEmpty) with
+        | some p => fieldsAux (p.get "scope") [] []
+        | none => []
+
+/-- The `ScopeFilter` variants of the harness. -/
+def scopeFilterOf : String → Option (List Scope → List Scope)
+  | "d" => some fun _ => []
+  | "r" => some fun l => l.filter (·.endsWith ":read")
+  | "x" => some fun l => l ++ ["extra:scope"]
+  | _ => none
+
 /-- The state of a case: the model handler with its attempts in flight (`CHandler`), the parsed record
 of every attempt in flight, and what the monitor remembers of the implementation's earlier rounds
 (issuers at which it registered dynamically). -/
 structure HState where
   c : CHandler
   nts : Bool := false                   -- NewTokenSource is configured
+  sf : String := "n"                    -- ScopeFilter variant
+  rr : Bool := false                    -- RequestRefreshToken
+  granted : Granted := []               -- `grantedScopes`
   cases : List (Nat × Case) := []
   dcrIssuers : List Url := []
 
@@ -391,20 +448,35 @@ def startStep (st : HState) (c : Case) : Option HState × String :=
   let k := st.c.started
   let c' := (st.c.step (.start c.attempt)).1
   let r := attemptResult st.c.cfg k c.attempt
+  -- the scopes of the authorization request are fixed BEFORE the fetcher is called: `grantedScopes` is read here
+  let c := if !r.log.any isFetchEv then c else
+    let w := c.m.tabs.world
+    let p := discoverPrm w 0 (prmCandidates (rmFrom c.m.inp.challenges) c.m.cfg.serverUrl)
+    let prmS := match p.1 with | .found _ => c.ps | _ => []
+    let issuer := p.1.issuer c.m.cfg.serverUrl
+    let q := discoverAsm w issuer 0 (asmCandidates issuer)
+    let asmS := match q.1 with | .found _ => c.asS | _ => []
+    let key := match r.asm with | some a => a.issuer | none => .empty
+    let sc := requestedScopes { filter := scopeFilterOf st.sf, refresh := st.rr } (challengeScopes c) prmS asmS (st.granted.get key)
+    { c with sc := some (canonScopes sc), key := key }
   (some { st with c := c', cases := st.cases ++ [(k, c)] }, if r.log.any isFetchEv then "parked" else "done")
 
 /-- `finish k`: the model's result of attempt `k`, the C15 monitor on the IMPLEMENTATION's observation of it. -/
 def finishStep (st : HState) (k : Nat) (impl : String) : Option HState × Verdict :=
   match st.cases.lookup k, st.c.step (.finish k) with
   | some c, (c', some (_, r)) =>
-    let modelText := showResult r c'.served
+    let modelText := showResult r c'.served ++ (match c.sc with | some l => " sc=" ++ showScopes l | none => "")
+    -- `updateGrantedScopes`: after a completed flow whose token can be read
+    let granted' := match c.sc with
+      | some l => if r.installed && r.outcome == .ok then st.granted.set c.key (canonScopes (grantedAfter c.ts l)) else st.granted
+      | none => st.granted
     -- run-time self-check of the string layer: the model's text parses back to the typed observation the
     -- bridge theorems are about (`monitor_accepts_schedule` is a statement about `obsOf r`)
     if parseObs modelText != some (obsOf r) then (some st, { model := "model-render-mismatch" }) else
     let (viol, regd) := match parseObs impl with
       | none => (some "C15: unparsable observation", [])
       | some o => let (cl, regd) := monitor c.m st.dcrIssuers o; (cl.map Clause.text, regd)
-    (some { st with c := c', cases := st.cases.filter (fun p => p.1 != k), dcrIssuers := st.dcrIssuers ++ regd },
+    (some { st with c := c', cases := st.cases.filter (fun p => p.1 != k), dcrIssuers := st.dcrIssuers ++ regd, granted := granted' },
      { model := modelText, violated := viol })
   | _, _ => (some st, { model := "no-such-attempt" })
 
@@ -427,7 +499,8 @@ def engine : Engine (Option HState) where
       match parseCase none 0 rest with
       | none => (none, { model := "bad-op" })
       | some c => roundStep { c := { cfg := { cimd := c.m.cfg.cimd, pre := c.m.cfg.pre, dcr := c.m.cfg.dcr } },
-                              nts := (kvs rest).lookup "nts" == some "1" } c impl
+                              nts := (kvs rest).lookup "nts" == some "1", sf := ((kvs rest).lookup "sf").getD "n",
+                              rr := (kvs rest).lookup "rr" == some "1" } c impl
     | "again" :: rest =>
       match st with
       | none => (none, { model := "no-handler" })
